@@ -24,6 +24,8 @@ type Queue[K comparable, V any] struct {
 	putCh     chan keyAndValue[K, V]
 	doneCh    chan struct{}
 	length    atomic.Int64
+
+	verif verifQ
 }
 
 type keyAndValue[K comparable, V any] struct {
@@ -52,6 +54,8 @@ func NewQueue[K comparable, V any]() *Queue[K, V] {
 // Run returns when the context is canceled. You can call Run only once.
 func (queue *Queue[K, V]) Run(ctx context.Context) {
 	defer close(queue.doneCh)
+
+	queue.verifStart()
 
 	var (
 		timer       timer.ResettableTimer
@@ -84,6 +88,7 @@ func (queue *Queue[K, V]) Run(ctx context.Context) {
 
 			pqueue.Pop()
 			queue.length.Add(-1)
+			queue.verifEvent("get", topOfQueueReleaser.key, topOfQueueReleaser.value, time.Time{})
 		case <-timer.C():
 			timer.Clear()
 		case released := <-queue.releaseCh:
@@ -108,6 +113,8 @@ func (queue *Queue[K, V]) Run(ctx context.Context) {
 					queue.length.Add(-1)
 				}
 			}
+
+			queue.verifEvent("release", released.Key, released.Value, released.ReleaseAfter)
 		case item := <-queue.putCh:
 			// new item was Put to the queue
 			if onHold.Contains(item.Key) {
@@ -119,6 +126,8 @@ func (queue *Queue[K, V]) Run(ctx context.Context) {
 					queue.length.Add(1)
 				}
 
+				queue.verifEvent("put", item.Key, item.Value, time.Time{})
+
 				continue
 			}
 
@@ -126,6 +135,8 @@ func (queue *Queue[K, V]) Run(ctx context.Context) {
 			if pqueue.Push(item.Key, item.Value, time.Now(), true) {
 				queue.length.Add(1)
 			}
+
+			queue.verifEvent("put", item.Key, item.Value, time.Time{})
 		}
 	}
 }
